@@ -551,6 +551,10 @@ func runC07(r *mc.Run) {
 		wg.Wait()
 	})
 	c07Twins(r)
+	// "regardless of goroutine scheduling": the free-running race pass (the same one C08 uses - blocks
+	// prepared, checked and finalised under the race detector, every block also by two more
+	// instances concurrently) reports anything two executions share outside their stores
+	c08RacePass(r)
 }
 
 // c07ClockTable lists the wall clocks of the clock replicas: shifted against the real clock,
